@@ -1,4 +1,5 @@
 import PlushModel
+import PlushProofs.Lib.LexerLines
 import PlushProofs.Props.C05
 /-!
   C15 — every template error names the line of the failing tag, invariant under shifting.
@@ -51,5 +52,24 @@ theorem C15_curStmt_kept_on_error (fuel : Nat) (st : Stmt) (s s1 : ES) (e : Err)
     (h : evalStmtBody fuel st ({ s with curStmt := some st.tok.line }) = (.err e, s1)) :
     evalStmt (fuel + 1) st s = (.err e, s1) := by
   simp [evalStmt, bind, getS, modifyS, h]
+
+/-! ### The line counter, globally (proofs in `PlushProofs/Lib/LexerTotal.lean`, `LexerLines.lean`) -/
+
+/-- THE LINE COUNTER IS EXACT, for every input and after any number of `NextToken` calls: `curLine` equals
+    1 + the number of line feeds among the bytes consumed so far (text, tags, strings, comments alike) — part
+    of the lexer invariant `LX.WF` that Theorem A maintains. -/
+theorem C15_line_counter_exact (input : Array UInt8) (n : Nat) :
+    (stateAfter n (LX.new input)).line =
+      1 + LX.countLF input ((stateAfter n (LX.new input)).pos + 1) := by
+  have a := stateAfter_adv n (LX.new input) (LX.new_wf input)
+  have := a.wf.ln
+  rw [a.input] at this
+  exact this
+
+/-- A TOKEN INSIDE A TAG CARRIES THE LINE IT STARTS ON: 1 + the number of line feeds in front of its first byte
+    (`tokStart`: after whitespace and `#` comments), however many lines the token itself or its look-ahead spans. -/
+theorem C15_token_line (l : LX) (w : l.WF) :
+    (LX.nextInsideToken (l.input.size + 2) l).1.line = 1 + LX.countLF l.input (LX.tokStart (l.input.size + 2) l) :=
+  LX.inside_token_line _ l w (by omega)
 
 end Plush
